@@ -28,6 +28,11 @@ func NewChannelMgr(cfg *Config, defaultTimeShiftBufferDepthS, defaultReceiveNrRa
 
 func (cm *ChannelMgr) AddChannel(ctx context.Context, chName, chDir string) {
 	cm.mu.Lock()
+	if _, ok := cm.channels[chName]; ok {
+		// Already created by a concurrent upload to the same channel
+		cm.mu.Unlock()
+		return
+	}
 
 	chCfg := ChannelConfig{
 		Name:                 chName,
